@@ -157,17 +157,19 @@ impl notify::EventHandler for NotifyEventHandler {
                         notify::EventKind::Remove(_) => (true, None),
                         notify::EventKind::Access(_) | notify::EventKind::Other => return,
                     };
-                    let mut paths = vec![(&*path, is_dir)];
-                    if with_parent {
-                        if let Some(parent) = path.parent() {
-                            paths.push((parent, Some(true)));
-                        }
-                    }
-                    let ids = paths
-                        .into_iter()
-                        .flat_map(|p| self.roots.iter().map(move |r| (p, r)))
-                        .filter_map(|((path, is_dir), root)| {
-                            id_of_path(&mut self.id_builder, root, path, is_dir)
+                    // The parent directory is the one of the entry's id: the
+                    // parent of a path with `..` components is another path
+                    let id_builder = &mut self.id_builder;
+                    let ids = self
+                        .roots
+                        .iter()
+                        .filter_map(|root| id_of_path(id_builder, root, &path, is_dir))
+                        .flat_map(|entry| {
+                            let parent = match entry.as_dir_entry().parent_id() {
+                                Some(id) if with_parent => Some(id.into()),
+                                _ => None,
+                            };
+                            std::iter::once(entry).chain(parent.map(OwnedDirEntry::Directory))
                         });
 
                     if self.events.send_multiple(ids).is_err() {
